@@ -26,12 +26,7 @@ func (m *Module) Init(s *models.Session, p *models.Participant) {
 	m.currentSession = s
 	m.currentParticipant = p
 
-	state, ok := s.ModuleState(m.Name())
-	if !ok {
-		state = &State{}
-		s.SetModuleState(m.Name(), state)
-	}
-	m.state = state.(*State)
+	m.state = s.ModuleStateOrSet(m.Name(), &State{}).(*State)
 
 	m.state.mutex.Lock()
 	if m.state.SpatialPartition == nil {
